@@ -12,6 +12,8 @@ pub struct Rule {
     pub pat: Vec<PTok>,
     pub tpl: Vec<PTok>,
     pub required: bool,
+    // `@fallback`: a generic std-definition rewrite that applies only where no other rule matched
+    pub fallback: bool,
     pub origin: String,
     pub file: String,
 }
@@ -114,6 +116,7 @@ fn mk_rule(kind: &str, arg: &str, origin: &str) -> Result<Rule, String> {
         pat: parse_pattern(p)?,
         tpl: parse_pattern(t)?,
         required,
+        fallback: false,
         origin: origin.to_string(),
         file: origin.rsplitn(2, ':').nth(1).unwrap_or("").to_string(),
     })
@@ -229,8 +232,9 @@ fn parse_into(text: &str, path: &str, include_dir: &str, unit: &mut Unit) -> Res
                     }
                 }
             }
-            "rewrite" | "type" | "dropstmt" | "stmt" | "forloop" | "guard" => {
-                let r = mk_rule(&d, &a, &origin)?;
+            "rewrite" | "type" | "dropstmt" | "stmt" | "forloop" | "guard" | "fallback" => {
+                let mut r = mk_rule(if d == "fallback" { "rewrite" } else { &d }, &a, &origin)?;
+                if d == "fallback" { r.fallback = true; }
                 match cur.as_mut() {
                     Some(t) => t.rules.push(r),
                     None => unit.rules.push(r),
